@@ -196,7 +196,7 @@ def register(reg, repo):
                       ("post", 2): "flushes-iff-something-eligible"}))
 
     reg.macro("sched_kept", ["s"],
-              "(s._tasks is old(s._tasks) or not old(alloc(s._tasks))) and "
+              "(s._tasks is old(s._tasks) or not old(alloc(now(s._tasks)))) and "
               "implies(s._tasks is old(s._tasks), len(s._tasks) == old(len(s._tasks)) and s.active_task is old(s.active_task) "
               "and s._batches is old(s._batches) and all(s._tasks[j] is old(s._tasks[j]) for j in range(0, old(len(s._tasks)))))")
     reg.add(C(S + "wait_for", modifies="*", types={"task": "AsyncTask"}, requires=["task.running == False"],
@@ -233,6 +233,9 @@ def register(reg, repo):
                   "implies(not old(blocked(task)), callcount('scheduler.TaskScheduler._continue_with_task') == 1 and "
                   "callcount('async_task.AsyncTask._pause_contexts') == 0)",
                   "implies(" + SAME + ", len(self._tasks) >= " + N0 + " - 1 and " + BELOW + ")",
+                  "self._tasks is old(self._tasks) or not old(alloc(now(self._tasks)))",
+                  "implies(" + SAME + ", self.active_task is old(self.active_task) and self._batches is old(self._batches))",
+                  "ts_sched_others(self)",
               ],
               xpost=None,
               invariants={1: [
@@ -262,6 +265,7 @@ def register(reg, repo):
     reg.add(C(S + "_continue_with_task", modifies="*", types={"task": "AsyncTask"},
               requires=["not computed(task)", "not blocked(task)", "task.running == False"],
               post=["implies(self._tasks is old(self._tasks), self.active_task is old(self.active_task))",
+                    "implies(self._tasks is old(self._tasks), self._batches is old(self._batches))",
                     "computed(task) or task._dependencies_scheduled == False",
                     "callcount('async_task.AsyncTask._continue') == 1 or (computed(task) and callcount('async_task.AsyncTask._continue') == 0)",
                     "call_before('async_task.AsyncTask._resume_contexts', 'async_task.AsyncTask._continue')"],
@@ -270,7 +274,7 @@ def register(reg, repo):
                       # E4: the task being stepped is not advanced re-entrantly while its body runs
                       "site_assumes_after": {"task._continue": ["task.running == old(task.running)"],
                                              "task._resume_contexts": ["self._tasks is old(self._tasks)"]},
-                      ("post", 0): "active-task-restored", ("post", 2): "exactly-one-step"}))
+                      ("post", 0): "active-task-restored", ("post", 3): "exactly-one-step"}))
 
     reg.add(C(S + "_execute", modifies="*", types={"root_task": "AsyncTask", "task": "FutureBase"},
               requires=["root_task.running == False"],
@@ -282,7 +286,7 @@ def register(reg, repo):
               invariants={1: [
                   "inv()", "two_state('old', 'sched')",
                   "implies(self._tasks is old(self._tasks), self.active_task is old(self.active_task) and self._batches is old(self._batches))",
-                  "self._tasks is old(self._tasks) or not old(alloc(self._tasks))",
+                  "self._tasks is old(self._tasks) or not old(alloc(now(self._tasks)))",
                   "ts_sched_others(self)",
                   "implies(self._tasks is old(self._tasks), len(self._tasks) >= int(init_num_tasks) and "
                   "all(self._tasks[j] is old(self._tasks[j]) for j in range(0, int(init_num_tasks))))",
